@@ -182,6 +182,92 @@ def same(a, b, tol=1e-5):
     return abs(a - b) <= tol * max(1.0, abs(a), abs(b))
 
 
+def audit_case(ctx, rng, case, form, setts, variant=None):
+    """one instance under the given settings against the reference settings (no heuristic, no presolve)"""
+    box = case['box']
+    base_s = dict(sm.DEFAULTS)
+    base_s['heuristic_reduction'] = False          # the reference: no heuristic, no presolve
+    ref = value_under(case, form, base_s, 'full' if box is None else 'auto')
+    ctx.case({'stream': 'audit', 'case': case, 'form': form})
+    ctx.count('stream:audit:' + ('ordinary' if box is None else 'conditional'))
+    if ref[0] != 'solved':
+        ctx.incon('audit: reference status %s' % ref[0])
+        return
+    for s in setts:
+        st_, v = value_under(case, form, s, 'auto')
+        if st_.startswith('raised'):
+            tag = None
+            what = 'options %s: building / solving the %s problem raised %s although the reference settings give %.6g' % (
+                {k: s[k] for k in s if s[k] != sm.DEFAULTS[k]}, form, st_[7:], ref[1])
+            if 'zero components' in st_:
+                tag = 'F16-kernel-basis-trivial-kernel'
+            ctx.violation('options: ' + what, {'stream': 'audit', 'case': case, 'form': form, 'settings': s}, tags=[tag] if tag else [])
+            continue
+        if st_ != 'solved':
+            ctx.incon('audit: status %s under some settings' % st_)
+            continue
+        if box is None:
+            # the same settings with FULL covers (built by hand from the public constraint classes)
+            stf, vf = value_under(case, form, s, 'full')
+            if stf == 'solved' and not same(vf, ref[1]):
+                ctx.violation('options: ordinary SAGE %s value %.8g with full covers under %s differs from %.8g under the reference settings'
+                              % (form, vf, {k: s[k] for k in s if s[k] != sm.DEFAULTS[k]}, ref[1]),
+                              {'stream': 'audit', 'case': case, 'form': form, 'settings': s, 'covers': 'full'})
+                continue
+            # one more way of saying the same thing, rotating: full covers written as all-True arrays, and / or the settings
+            # handed to the constraint itself while the global defaults say the opposite
+            cm, via = variant or [('fullT', 'global'), ('full', 'override'), ('fullT', 'override'), ('hand', 'override'), ('hand', 'global')][rng.randrange(5)]
+            stx, vx = value_under(case, form, s, cm, via)
+            ctx.count('audit:variant:%s/%s' % (cm, via))
+            if stx.startswith('raised') or (stx == 'solved' and not same(vx, ref[1])):
+                ctx.violation('options: ordinary SAGE %s problem with covers=%s and the options %s given as %s: %s, the reference settings give %.8g'
+                              % (form, {'fullT': 'full (all-True arrays)', 'full': 'full', 'hand': 'automatic'}[cm],
+                                 {k: s[k] for k in s if s[k] != sm.DEFAULTS[k]},
+                                 'per-constraint settings (global defaults: the opposite)' if via == 'override' else 'global defaults',
+                                 stx[7:] if stx.startswith('raised') else 'value %.8g' % vx, ref[1]),
+                              {'stream': 'audit', 'case': case, 'form': form, 'settings': s, 'covers': cm, 'via': via})
+                continue
+            if not same(v, ref[1]):
+                tag = []
+                if s['sum_age_force_equality'] and form == 'primal' and v == -math.inf:
+                    tag = ['F7-force-equality-uncovered']
+                ctx.violation('options: ordinary SAGE %s value %.8g under %s differs from %.8g under full covers without presolve'
+                              % (form, v, {k: s[k] for k in s if s[k] != sm.DEFAULTS[k]}, ref[1]),
+                              {'stream': 'audit', 'case': case, 'form': form, 'settings': s}, tags=tag)
+        else:
+            # the options handed to the constraint itself (global defaults: the opposite) mean what the global defaults mean
+            if rng.random() < 0.35 or variant:
+                sto, vo = value_under(case, form, s, 'hand', 'override')
+                ctx.count('audit:variant:hand/override:conditional')
+                if sto.startswith('raised') or (sto == 'solved' and not same(vo, v)):
+                    ctx.violation('options: conditional SAGE %s problem with the options %s given as per-constraint settings (global '
+                                  'defaults: the opposite): %s; the same options as global defaults give %.8g'
+                                  % (form, {k: s[k] for k in s if s[k] != sm.DEFAULTS[k]},
+                                     sto[7:] if sto.startswith('raised') else 'value %.8g' % vo, v),
+                                  {'stream': 'audit', 'case': case, 'form': form, 'settings': s, 'covers': 'hand', 'via': 'override'})
+                    continue
+            exact = not s['heuristic_reduction'] and not s['presolve_trivial_age_cones']
+            if exact and not same(v, ref[1]):
+                tag = ['F7-force-equality-uncovered'] if (s['sum_age_force_equality'] and form == 'primal' and v == -math.inf) else []
+                ctx.violation('options: conditional SAGE %s value %.8g under the exact options %s differs from the reference %.8g'
+                              % (form, v, {k: s[k] for k in s if s[k] != sm.DEFAULTS[k]}, ref[1]),
+                              {'stream': 'audit', 'case': case, 'form': form, 'settings': s}, tags=tag)
+            if v > ref[1] + 1e-5 * max(1.0, abs(ref[1])):
+                ctx.violation('options: conditional SAGE %s value %.8g under %s EXCEEDS the value %.8g without heuristics'
+                              % (form, v, {k: s[k] for k in s if s[k] != sm.DEFAULTS[k]}, ref[1]),
+                              {'stream': 'audit', 'case': case, 'form': form, 'settings': s})
+            if math.isfinite(ref[1]) and v == -math.inf and form == 'primal' and not exact:
+                # same cause as the recorded finding only if switching heuristic_reduction off ALONE restores feasibility
+                tags = []
+                if s['heuristic_reduction']:
+                    st2, v2 = value_under(case, form, dict(s, heuristic_reduction=False), 'auto')
+                    if st2 == 'solved' and math.isfinite(v2) and documented_covers(case):
+                        tags = ['F10-heuristic-reduction-infeasible']
+                ctx.violation('options: the heuristic options %s turn a feasible conditional certificate problem (value %.6g) infeasible'
+                              % ({k: s[k] for k in s if s[k] != sm.DEFAULTS[k]}, ref[1]),
+                              {'stream': 'audit', 'case': case, 'form': form, 'settings': s}, tags=tags)
+
+
 def audit(ctx, rng, count, nsett):
     alls = list(sm.all_settings())
     for t in range(count):
@@ -193,12 +279,18 @@ def audit(ctx, rng, count, nsett):
             f = rm.sig_leaf([[F(0), F(0)], [F(2), F(0)], [F(0), F(2)], [F(1), F(1)], [F(1), F(1, 2)], [F(1, 2), F(1)]],
                             [F(rng.choice([1, 2])), F(rng.choice([1, 2])), F(rng.choice([1, 2])), F(rng.choice([1, 2])),
                              F(-1, rng.choice([1, 2])), F(-1, rng.choice([1, 2]))])
+        elif t % 8 == 5:
+            # exponents of mixed sign whose row sums are nonnegative with minimum zero: the negative term (1,1) lies between (4,0) and
+            # (-2,2), which is orthogonal to it (the sign-pattern simplification is only valid for nonnegative exponents)
+            k = rng.choice([1, 2])
+            f = rm.sig_leaf([[F(0), F(0)], [F(4 * k), F(0)], [F(-2 * k), F(2 * k)], [F(k), F(k)]],
+                            [F(rng.choice([1, 2, 3])), F(rng.choice([1, 2])), F(rng.choice([1, 2])), F(-1, rng.choice([1, 2]))])
         else:
             f = rm.gen_sig(rng, m=rng.randint(3, 5))
         two_neg = t % 8 in (3, 7)
         n = f['n']
         box = None
-        if rng.random() < 0.45 and not (t % 8 == 3):
+        if rng.random() < 0.45 and t % 8 not in (3, 5):
             box = rm.gen_box(rng, n) if rng.random() < 0.6 else {'lin': [[[common.frac_str(F(rng.randint(-1, 1))) for _ in range(n)], '0']]}
             if 'lin' in box and all(F(a) == 0 for a in box['lin'][0][0]):
                 box['lin'][0][0][0] = '1'
@@ -211,85 +303,7 @@ def audit(ctx, rng, count, nsett):
                      dict(sm.DEFAULTS, sum_age_force_equality=True, presolve_trivial_age_cones=True)] + setts[1:nsett - 3]
         base_s = dict(sm.DEFAULTS)
         base_s['heuristic_reduction'] = False          # the reference: no heuristic, no presolve
-        ref = value_under(case, form, base_s, 'full' if box is None else 'auto')
-        ctx.case({'stream': 'audit', 'case': case, 'form': form})
-        ctx.count('stream:audit:' + ('ordinary' if box is None else 'conditional'))
-        if ref[0] != 'solved':
-            ctx.incon('audit: reference status %s' % ref[0])
-            continue
-        for s in setts:
-            st_, v = value_under(case, form, s, 'auto')
-            if st_.startswith('raised'):
-                tag = None
-                what = 'options %s: building / solving the %s problem raised %s although the reference settings give %.6g' % (
-                    {k: s[k] for k in s if s[k] != sm.DEFAULTS[k]}, form, st_[7:], ref[1])
-                if 'zero components' in st_:
-                    tag = 'F16-kernel-basis-trivial-kernel'
-                ctx.violation('options: ' + what, {'stream': 'audit', 'case': case, 'form': form, 'settings': s}, tags=[tag] if tag else [])
-                continue
-            if st_ != 'solved':
-                ctx.incon('audit: status %s under some settings' % st_)
-                continue
-            if box is None:
-                # the same settings with FULL covers (built by hand from the public constraint classes)
-                stf, vf = value_under(case, form, s, 'full')
-                if stf == 'solved' and not same(vf, ref[1]):
-                    ctx.violation('options: ordinary SAGE %s value %.8g with full covers under %s differs from %.8g under the reference settings'
-                                  % (form, vf, {k: s[k] for k in s if s[k] != sm.DEFAULTS[k]}, ref[1]),
-                                  {'stream': 'audit', 'case': case, 'form': form, 'settings': s, 'covers': 'full'})
-                    continue
-                # one more way of saying the same thing, rotating: full covers written as all-True arrays, and / or the settings
-                # handed to the constraint itself while the global defaults say the opposite
-                cm, via = [('fullT', 'global'), ('full', 'override'), ('fullT', 'override'), ('hand', 'override'), ('hand', 'global')][rng.randrange(5)]
-                stx, vx = value_under(case, form, s, cm, via)
-                ctx.count('audit:variant:%s/%s' % (cm, via))
-                if stx.startswith('raised') or (stx == 'solved' and not same(vx, ref[1])):
-                    ctx.violation('options: ordinary SAGE %s problem with covers=%s and the options %s given as %s: %s, the reference settings give %.8g'
-                                  % (form, {'fullT': 'full (all-True arrays)', 'full': 'full', 'hand': 'automatic'}[cm],
-                                     {k: s[k] for k in s if s[k] != sm.DEFAULTS[k]},
-                                     'per-constraint settings (global defaults: the opposite)' if via == 'override' else 'global defaults',
-                                     stx[7:] if stx.startswith('raised') else 'value %.8g' % vx, ref[1]),
-                                  {'stream': 'audit', 'case': case, 'form': form, 'settings': s, 'covers': cm, 'via': via})
-                    continue
-                if not same(v, ref[1]):
-                    tag = []
-                    if s['sum_age_force_equality'] and form == 'primal' and v == -math.inf:
-                        tag = ['F7-force-equality-uncovered']
-                    ctx.violation('options: ordinary SAGE %s value %.8g under %s differs from %.8g under full covers without presolve'
-                                  % (form, v, {k: s[k] for k in s if s[k] != sm.DEFAULTS[k]}, ref[1]),
-                                  {'stream': 'audit', 'case': case, 'form': form, 'settings': s}, tags=tag)
-            else:
-                # the options handed to the constraint itself (global defaults: the opposite) mean what the global defaults mean
-                if rng.random() < 0.35:
-                    sto, vo = value_under(case, form, s, 'hand', 'override')
-                    ctx.count('audit:variant:hand/override:conditional')
-                    if sto.startswith('raised') or (sto == 'solved' and not same(vo, v)):
-                        ctx.violation('options: conditional SAGE %s problem with the options %s given as per-constraint settings (global '
-                                      'defaults: the opposite): %s; the same options as global defaults give %.8g'
-                                      % (form, {k: s[k] for k in s if s[k] != sm.DEFAULTS[k]},
-                                         sto[7:] if sto.startswith('raised') else 'value %.8g' % vo, v),
-                                      {'stream': 'audit', 'case': case, 'form': form, 'settings': s, 'covers': 'hand', 'via': 'override'})
-                        continue
-                exact = not s['heuristic_reduction'] and not s['presolve_trivial_age_cones']
-                if exact and not same(v, ref[1]):
-                    tag = ['F7-force-equality-uncovered'] if (s['sum_age_force_equality'] and form == 'primal' and v == -math.inf) else []
-                    ctx.violation('options: conditional SAGE %s value %.8g under the exact options %s differs from the reference %.8g'
-                                  % (form, v, {k: s[k] for k in s if s[k] != sm.DEFAULTS[k]}, ref[1]),
-                                  {'stream': 'audit', 'case': case, 'form': form, 'settings': s}, tags=tag)
-                if v > ref[1] + 1e-5 * max(1.0, abs(ref[1])):
-                    ctx.violation('options: conditional SAGE %s value %.8g under %s EXCEEDS the value %.8g without heuristics'
-                                  % (form, v, {k: s[k] for k in s if s[k] != sm.DEFAULTS[k]}, ref[1]),
-                                  {'stream': 'audit', 'case': case, 'form': form, 'settings': s})
-                if math.isfinite(ref[1]) and v == -math.inf and form == 'primal' and not exact:
-                    # same cause as the recorded finding only if switching heuristic_reduction off ALONE restores feasibility
-                    tags = []
-                    if s['heuristic_reduction']:
-                        st2, v2 = value_under(case, form, dict(s, heuristic_reduction=False), 'auto')
-                        if st2 == 'solved' and math.isfinite(v2) and documented_covers(case):
-                            tags = ['F10-heuristic-reduction-infeasible']
-                    ctx.violation('options: the heuristic options %s turn a feasible conditional certificate problem (value %.6g) infeasible'
-                                  % ({k: s[k] for k in s if s[k] != sm.DEFAULTS[k]}, ref[1]),
-                                  {'stream': 'audit', 'case': case, 'form': form, 'settings': s}, tags=tags)
+        audit_case(ctx, rng, case, form, setts)
 
 
 def targeted(ctx, rng):
@@ -346,6 +360,7 @@ def run(ctx):
     rng = ctx.rng
     ctx.lean = common.lean_check('C19')
     quick = ctx.quick()
+    common.run_regressions(ctx, 'C19', recheck)
     f16 = structural(ctx, rng, 25 if quick else 100, 8 if quick else 32)
     for inst, s, mode, _ in f16[:3]:
         ctx.violation('options: kernel_basis=True makes the constructor raise "Cannot declare Variables with zero components" '
@@ -377,10 +392,20 @@ def run(ctx):
         trusted=TRUSTED, assumptions=ASSUME)
 
 
+def recheck(r):
+    """execute the stored input of a violation again; the violation it (still) shows (recorded findings excepted)"""
+    import random
+    ctx = common.RecCtx()
+    if r.get('stream') == 'audit' and 'case' in r:
+        variant = (r['covers'], r.get('via', 'global')) if r.get('covers') in ('full', 'fullT', 'hand') and 'via' in r else None
+        audit_case(ctx, random.Random(0), r['case'], r['form'], [r['settings']], variant=variant)
+    for what, _, tags in ctx.violations:
+        if not [t for t in tags if t]:
+            return what
+    return None
+
+
 def replay(obj):
     print('what:', obj['what'])
-    r = obj['replay']
-    if 'case' in r and 'settings' in r:
-        print('under the settings:', value_under(r['case'], r['form'], r['settings'], r.get('covers', 'auto'), r.get('via', 'global')))
-        print('reference:', value_under(r['case'], r['form'], dict(sm.DEFAULTS, heuristic_reduction=False), 'auto'))
+    print(common.canon_json(obj['replay'])[:1500])
     return 1
